@@ -35,7 +35,7 @@ def make_case(rng, i, tier):
     if scen in ("bars_tokens", "composition"):
         case["piece"] = gen.piece(rng, ntracks=rng.randint(1, 3), lens=gen.DEFAULT_NOTE_VALUES, ongrid=grid, ragged=True,
                                   keys=False, cross_bars=rng.random() < 0.5, meta=0,
-                                  sigs=[(4, 4), (3, 4), (6, 8), (2, 4), (5, 4), (2, 2)])
+                                  sigs=[(4, 4), (3, 4), (6, 8), (2, 4), (5, 4), (2, 2), (8, 8)])
         case["flags"] = [rng.random() < 0.5 for _ in range(4)]
         case["bins"] = rng.choice([1, 1, 2, 4, 8])
     elif scen == "short_bar":
@@ -173,7 +173,18 @@ def run(case, ctx):
                 s, o = pool[op["s"]], pool[1 - op["s"]]
                 n = op["op"]
                 if n == "quantise":
-                    s.quantise()
+                    if op["a"] % 3 == 0:
+                        s.quantise()
+                    else:
+                        # step sizes as the documented helpers generate them (tick values themselves: "an array of note
+                        # values in ticks"), for every bound the helpers accept
+                        from scoda.misc import util as _u
+                        steps = (_u.get_default_step_sizes(upper_bound_shift=op["k"] % 3, lower_bound_shift=op["a"] % 2) if op["a"] % 3 == 1
+                                 else _u.get_note_durations(2 ** (op["k"] % 4), 2 ** (1 + op["a"] % 4)))
+                        LOG.n("c11.helper_generated_steps")
+                        if not all(type(x) is int for x in steps):
+                            fails.append(fail("helper_returns_non_int_tick_values", {"steps": [repr(x) for x in steps][:8]}))
+                        s.quantise(steps)
                 elif n == "normalise":
                     s.normalise()
                 elif n == "pad":
@@ -195,7 +206,16 @@ def run(case, ctx):
                 elif n == "scale":
                     s.scale(op["k"])
                 elif n == "qnl":
-                    s.quantise_note_lengths(do_not_extend=op["k"] % 2 == 0)
+                    if op["a"] % 2 == 0:
+                        s.quantise_note_lengths(do_not_extend=op["k"] % 2 == 0)
+                    else:
+                        from scoda.misc import util as _u
+                        base = _u.get_note_durations(2 ** (op["k"] % 3), 2 ** (1 + op["a"] % 3))
+                        vals = base + _u.get_tuplet_durations(base, 3, 2) + _u.get_dotted_note_durations(base, 1 + op["k"] % 2)
+                        LOG.n("c11.helper_generated_values")
+                        if not all(type(x) is int for x in vals):
+                            fails.append(fail("helper_returns_non_int_tick_values", {"values": [repr(x) for x in vals][:8]}))
+                        s.quantise_note_lengths(vals, do_not_extend=op["k"] % 2 == 0)
                 elif n == "qan":
                     s.quantise_and_normalise()
                 elif n == "set_channel":
